@@ -395,8 +395,10 @@ class Driver:
         return self._inst_rows([i.path for i in store.iter_values()])
 
     def all_classnames(self):
-        return [cid_of(n) for n in
-                self.conn.EnumerateClassNames(DeepInheritance=True)]
+        """Read-only peek at the class store (classes cut off from the roots
+        are invisible to EnumerateClassNames)."""
+        store = self.conn.cimrepository.get_class_store(NS)
+        return [cid_of(c.classname) for c in store.iter_values()]
 
     def delete(self, cid):
         ac = {"op": "Delete", "name": cid}
